@@ -74,15 +74,23 @@ Arrive(addr, cmd, delta) ==
         /\ dq' = r[2]
         /\ hist' = Append(hist, [t |-> now', addr |-> addr, cmd |-> cmd, lim |-> r[1]])
 
-(* cleanup(): drop per-address state that is older than the longest "ip" interval *)
-IpMax == IF "ip" \in Scopes /\ DOMAIN Rules["ip"] # {}
-         THEN SetMax({MaxInterval(Rules["ip"][c]) : c \in DOMAIN Rules["ip"]}) ELSE 0
-Cleanup(delta) ==
+(* cleanup(): drop per-address state that is older than the longest interval of any per-address rule - the "ip" section   *)
+(* and the sections of specific addresses (as found, only the "ip" section was looked at: CleanupAsFound, finding 34)      *)
+SectionMax(sc) == IF DOMAIN Rules[sc] # {} THEN SetMax({MaxInterval(Rules[sc][c]) : c \in DOMAIN Rules[sc]}) ELSE 0
+IpMaxAsFound == IF "ip" \in Scopes THEN SectionMax("ip") ELSE 0
+IpMax == SetMax({SectionMax(sc) : sc \in Scopes \ {"global"}} \cup {0})
+CleanupWith(delta, m) ==
     /\ now' = now + delta
-    /\ dq' = IF IpMax = 0 THEN dq
+    /\ dq' = IF m = 0 THEN dq
              ELSE [k \in Keys |-> IF k = "global" THEN dq[k]
-                                  ELSE [c \in Cmds |-> IF dq[k][c] = <<>> \/ now' - dq[k][c][1] > IpMax THEN <<>> ELSE dq[k][c]]]
+                                  ELSE [c \in Cmds |-> IF dq[k][c] = <<>> \/ now' - dq[k][c][1] > m THEN <<>> ELSE dq[k][c]]]
     /\ UNCHANGED hist
+Cleanup(delta) == CleanupWith(delta, IpMax)
+CleanupAsFound(delta) == CleanupWith(delta, IpMaxAsFound)
+
+NextAsFound == \/ \E a \in Addrs, c \in Cmds, d \in Deltas : Arrive(a, c, d)
+               \/ \E d \in Deltas : CleanupAsFound(d)
+SpecAsFound == Init /\ [][NextAsFound]_vars
 
 Next == \/ \E a \in Addrs, c \in Cmds, d \in Deltas : Arrive(a, c, d)
         \/ \E d \in Deltas : Cleanup(d)
